@@ -343,8 +343,8 @@ def run(ctx):
                      % ("v2/async_scope.hpp (v2 and v1 scopes)" if ver == 2 else "v0/async_scope.hpp"))
 
     fams = {2: scenarios_v2(ctx.tier), 1: scenarios_v1(ctx.tier), 0: scenarios_v0(ctx.tier)}
-    gcap = {2: 800 if q else 5000, 1: 500 if q else 3000, 0: 250 if q else 1500}
-    dcap = {2: 40 if q else 300, 1: 60 if q else 300, 0: 60 if q else 300}
+    gcap = {2: 800 if q else 3000, 1: 500 if q else 2000, 0: 250 if q else 1000}
+    dcap = {2: 40 if q else 150, 1: 60 if q else 200, 0: 60 if q else 200}
     for ver in (2, 1, 0):
         scns = fams[ver]
         sp = os.path.join(ctx.work, "scn_v%d.json" % ver)
@@ -362,7 +362,7 @@ def run(ctx):
                               % (ver, ro["kind"], ro["out"][-1500:]))
         rep.exhaustive = True
         # ---- guided replay of edge-covering behaviours
-        behs, nedges, nwalks, nall = behaviours_from_edges(ctx, edges, scns, gcap[ver], 0 if q else 1500)
+        behs, nedges, nwalks, nall = behaviours_from_edges(ctx, edges, scns, gcap[ver], 0 if q else 1000)
         bp = os.path.join(ctx.work, "behaviours_v%d.ndjson" % ver)
         with open(bp, "w") as f:
             for b in behs:
@@ -381,7 +381,7 @@ def run(ctx):
         # ---- DFS + random schedules of the real code (scope destroyed eagerly; under a regression also late, because the
         # touch-after-destruction kills an eager unit at its first bad schedule)
         units = [[i, 1] for i in range(len(scns))] + ([] if fixed[ver] else [[i, 0] for i, s in enumerate(scns) if n_closers(s) >= 2])
-        if not real_runs(ctx, exe, scns, units, sp, "v%d" % ver, dcap[ver], 15 if q else 60):
+        if not real_runs(ctx, exe, scns, units, sp, "v%d" % ver, dcap[ver], 15 if q else 40):
             return
 
     # ================= futures nested in the scope (v2: also model-checked; v1: real code + monitor)
@@ -393,14 +393,14 @@ def run(ctx):
             vlib.model_check(ctx, "scope", "ScopeV2MC", cfg="ScopeV2NoExport.cfg", env={"SCENARIOS": sp}, timeout=3000)
             if not q:
                 vlib.model_check(ctx, "scope", "ScopeV2Live", cfg="ScopeV2Live.cfg", env={"SCENARIOS": sp}, timeout=3000)
-        if not real_runs(ctx, exe, scns, [[i, 1] for i in range(len(scns))], sp, "fut-v%d" % ver, 50 if q else 300, 15 if q else 60):
+        if not real_runs(ctx, exe, scns, [[i, 1] for i in range(len(scns))], sp, "fut-v%d" % ver, 50 if q else 200, 15 if q else 40):
             return
     # ================= debug_async_scope wrappers
     for ver in (12, 11):
         scns = scenarios_debug(ver, ctx.tier)
         sp = os.path.join(ctx.work, "scn_dbg%d.json" % ver)
         json.dump(scns, open(sp, "w"))
-        if not real_runs(ctx, exe, scns, [[i, 1] for i in range(len(scns))], sp, "debug-v%d" % (ver - 10), 40 if q else 300, 10 if q else 60):
+        if not real_runs(ctx, exe, scns, [[i, 1] for i in range(len(scns))], sp, "debug-v%d" % (ver - 10), 40 if q else 200, 10 if q else 40):
             return
     rep.rule("executions = guided replays of TLC behaviours (v2, v1, v0) + DFS(preemption-bounded) + seeded random schedules of the real "
              "v2/v1/v0 async_scope, futures nested in them and the debug_async_scope wrappers; distinct_nontrivial = distinct "
